@@ -1698,6 +1698,27 @@ def normalise_else_after_exit(fn) -> int:
     return int(done > 0)
 
 
+def normalise_range_zero(fn) -> int:
+    """`range(0, n)` -> `range(n)`, `np.arange(0, n)` -> `np.arange(n)` (two positional arguments, the first the constant 0), in place."""
+    from .model import norm
+    if not (_vocab(fn) & {'range', 'arange'}):
+        return 0
+    done = 0
+
+    class R(ast.NodeTransformer):
+        def visit_Call(self, c):
+            nonlocal done
+            self.generic_visit(c)
+            if norm(c.func) in ('range', 'np.arange', 'numpy.arange') and len(c.args) == 2 and not c.keywords \
+                    and isinstance(c.args[0], ast.Constant) and c.args[0].value == 0 and not isinstance(c.args[0].value, bool) \
+                    and not any(isinstance(a, ast.Starred) for a in c.args):
+                c.args = c.args[1:]
+                done += 1
+            return c
+    R().visit(fn.node)
+    return int(done > 0)
+
+
 def normalise_yoda(fn) -> int:
     """`0 < x` -> `x > 0`, `'' == ext` -> `ext == ''`, `Result.MISCTYPE == code` -> `code == Result.MISCTYPE`: a single comparison with a
     CONSTANT (literal, signed literal, ALL-CAPS attribute / name) on the left and a non-constant on the right is written with the constant
@@ -2542,6 +2563,7 @@ def flatten_model(model) -> Optional[Flattener]:
                 _VOCAB.pop(id(f.node), None)
             n += r
         return n
+    fl.range_zero = run(normalise_range_zero)
     fl.slices = run(normalise_slices)
     fl.gathers = run(normalise_gathers)
     fl.calls = run(normalise_calls, model)
